@@ -2,10 +2,10 @@
 # evaluate every delivered seed that has no confirmation record yet (one at a time)
 exec 9>/tmp/run_pending_seeds.lock; flock -n 9 || { echo "already running"; exit 0; }
 cd /verif
-for d in /tmp/seed-C* /tmp/seed2-C* /tmp/seed3-C* /tmp/seed4-C* /tmp/seed5-C* /tmp/seed6-C[0-9][0-9]; do
+for d in /tmp/seed-C* /tmp/seed2-C* /tmp/seed3-C* /tmp/seed4-C* /tmp/seed5-C* /tmp/seed6-C[0-9][0-9] /tmp/seed7-C[0-9][0-9]; do
   [ -f $d/patch.diff ] && [ -f $d/meta.json ] || continue
   b=$(basename $d); P=${b#seed-}; TAG=""
-  case $b in seed2-*) P=${b#seed2-}; TAG="-2";; seed3-*) P=${b#seed3-}; TAG="-3";; seed4-*) P=${b#seed4-}; TAG="-4";; seed5-*) P=${b#seed5-}; TAG="-5";; seed6-*) P=${b#seed6-}; TAG="-6";; esac
+  case $b in seed2-*) P=${b#seed2-}; TAG="-2";; seed3-*) P=${b#seed3-}; TAG="-3";; seed4-*) P=${b#seed4-}; TAG="-4";; seed5-*) P=${b#seed5-}; TAG="-5";; seed6-*) P=${b#seed6-}; TAG="-6";; seed7-*) P=${b#seed7-}; TAG="-7";; esac
   [ -f seeded/$P$TAG/meta.json ] && continue
   case " $SKIP " in *" $P "*) continue;; esac
   echo "##### $P$TAG"; tools/try_seed.sh $P $d $TAG
